@@ -339,6 +339,16 @@ def replay_eval_(ext, hc, chain, ev, out, verbose, stats, raw, t_rec, t_hist):
         if t.get("ready") is None:
             continue
         obs = observe(e)
+        # the python runner polls next_job_ready_to_run(): it has to name an offered job, and None only if none is offered
+        try:
+            nxt = e.next_job_ready_to_run()
+        except BaseException as ex:  # noqa: B902
+            nxt = "<raised %r>" % (ex,)
+        if (nxt is None and obs["ready"]) or (nxt is not None and nxt not in obs["ready"]):
+            v(["C17", "C05"] if nxt is None else ["C17"], "pybridge-next-job-disagrees-with-ready-set", "none" if nxt is None else "not-offered", "after %s(%s) next_job_ready_to_run() = %r through the extension although jobs_ready_to_run() = %r" % (op, job, nxt, obs["ready"]))
+            return viol, "stop"
+        if op == "abort" and (obs["ready"] or obs["running"] or not obs["finished"]):
+            v(["C10"], "pybridge-not-quiescent-after-abort", "", "after event_abort() through the extension: %r" % (obs,))
         diffs = [k for k in obs if obs[k] != t[k]]
         if diffs:
             if faulty:
